@@ -101,7 +101,10 @@ def ndk_record(r):
         r.get("hypo_cat", "PDEW"), r["year"], r["month"], r["day"], r["hour"], r["minute"], r["second"], r["lat"], r["lon"], r["depth"], 5.5, 5.8,
         "GENERATED EVENT")
     l2 = "%-16s B: 88  166  40 S: 96  189  50 M: 41   52 125 CMT: %d %s:%5.1f" % (r["name"], r.get("cmt_type", 1), r.get("mr_type", "TRIHD"), 1.8)
-    l3 = "CENTROID: %8.1f%4.1f%7.2f%5.2f%8.2f%5.2f%6.1f%5.1f %-4s %s" % (5.3, 0.1, r["lat"], 0.01, r["lon"], 0.01, r["depth"], 0.4, r.get("depth_type", "FREE"), r.get("stamp", "S-20060726112355"))
+    # the centroid differs from the hypocentre (the catalog location is the hypocentre of line 1)
+    clat = max(-89.0, min(89.0, r["lat"] * 0.5 + 1.25))
+    clon = max(-179.0, min(179.0, r["lon"] * 0.5 - 2.5))
+    l3 = "CENTROID: %8.1f%4.1f%7.2f%5.2f%8.2f%5.2f%6.1f%5.1f %-4s %s" % (5.3, 0.1, clat, 0.01, clon, 0.01, r["depth"] + 3.0, 0.4, r.get("depth_type", "FREE"), r.get("stamp", "S-20060726112355"))
     l4 = "%2d" % r["exp"] + "".join(" %6.3f %5.3f" % (v, 0.05) for v in (4.18, -1.7, -2.48, -1.05, -2.41, -2.28))
     l5 = "V10" + "".join(" %7.3f %2d %3d" % a for a in ((4.975, 73, 100), (0.120, 8, 216), (-5.095, 15, 308))) + " " + "%7.3f" % r["moment"] + \
          " %3d %2d %4d %3d %2d %4d" % (49, 30, 106, 211, 61, 81)
